@@ -141,7 +141,17 @@ pub fn run_neigh(case: &serde_json::Value, out: &mut String) {
     };
     writeln!(out, "load OK").unwrap();
     writeln!(out, "{}", perm_line(&nw)).unwrap();
-    let mut state = match guarded(|| MinCostFlowSolver::initialize(nw.clone()).solve().improve_depots(None)) {
+    let mcf = match guarded(|| MinCostFlowSolver::initialize(nw.clone()).solve()) {
+        Err(_) => {
+            writeln!(out, "start PANIC").unwrap();
+            writeln!(out, "{}", panic_note()).unwrap();
+            return;
+        }
+        Ok(s) => s,
+    };
+    // the flow solution as spawned (the model rebuilds it by spawning the same tours in vehicle-id order)
+    dump_schedule(&mcf, "mcf", out);
+    let mut state = match guarded(|| mcf.improve_depots(None)) {
         Err(_) => {
             writeln!(out, "start PANIC").unwrap();
             writeln!(out, "{}", panic_note()).unwrap();
